@@ -10,7 +10,10 @@
 // call line:  id name mode dig nargs a1 .. an
 //   mode v = value only, d = first derivatives, h = first and second
 //   dig  '-' = NULL, else a string of 0/1 (1 = argument constant, partials not needed)
-// Every call is made twice on fresh arglists (determinism observation).  Calls run in a
+// Every call is made three times on fresh arglists: once with derivs/hes pre-filled with
+// NaN and twice pre-filled with a finite sentinel.  The first two give two Ret records
+// (fill "nan" / "val"; in the latter a partial that still holds the sentinel bits is
+// flagged unwritten), the last two are compared bit by bit (determinism observation).  Calls run in a
 // forked child with a per-call alarm; a child killed by SIGALRM gives a Hang record for
 // the call in progress, any other abnormal end a Crash record, and a new child resumes
 // with the next call.  derivs/hes are pre-filled with NaN so that a partial the
@@ -67,7 +70,9 @@ struct Call { long id; int fn; char mode; std::string dig; std::vector<double> a
 
 struct Out { double v; std::vector<double> d, h; std::string err; bool haserr; const char *sv; };
 
-static Out call_once(const Fn &f, const Call &c) {
+static const double SENTINEL = -8.0776519e+33;   // finite, not a value any formula here yields
+
+static Out call_once(const Fn &f, const Call &c, bool nanfill) {
   Out o; o.sv = nullptr;
   int n = (int)c.a.size();
   std::vector<double> ra(c.a);
@@ -79,7 +84,7 @@ static Out call_once(const Fn &f, const Call &c) {
   al.dig = (c.dig != "-" && n) ? dig.data() : nullptr;
   al.funcinfo = f.info;
   al.AE = &AE; al.TMI = &TMI;
-  const double poison = std::nan("");
+  const double poison = nanfill ? std::nan("") : SENTINEL;
   if (c.mode != 'v') { o.d.assign(n ? n : 1, poison); al.derivs = o.d.data(); }
   if (c.mode == 'h') { o.h.assign(n ? n * (n + 1) / 2 : 1, poison); al.hes = o.h.data(); }
   if (f.type & FUNCADD_STRING_VALUED) {
@@ -99,23 +104,38 @@ static bool same(const std::vector<double> &a, const std::vector<double> &b) {
   return a.size() == b.size() && (a.empty() || memcmp(a.data(), b.data(), a.size() * sizeof(double)) == 0);
 }
 
-static void record(FILE *outf, const Fn &f, const Call &c) {
-  Out o1 = call_once(f, c), o2 = call_once(f, c);
-  bool det = memcmp(&o1.v, &o2.v, sizeof(double)) == 0 && same(o1.d, o2.d) && same(o1.h, o2.h) &&
-             o1.haserr == o2.haserr && o1.err == o2.err;
-  const char *val = (f.type & FUNCADD_STRING_VALUED) ? (o1.sv ? "str" : "nullstr")
-                    : std::isnan(o1.v) ? "nan" : std::isinf(o1.v) ? "inf" : "fin";
-  const char *err = !o1.haserr ? "none" : o1.err.size() && o1.err[0] == '\'' ? "deriv"
-                    : o1.err.size() && o1.err[0] == '"' ? "hes" : "eval";
-  std::string s = "{\"e\":\"Ret\",\"id\":" + std::to_string(c.id) + ",\"val\":\"" + val + "\",\"err\":\"" + err + "\",\"dn\":[";
-  for (size_t i = 0; i < o1.d.size(); ++i) s += (i ? "," : "") + std::string(std::isnan(o1.d[i]) ? "true" : "false");
-  s += "],\"hn\":[";
-  for (size_t i = 0; i < o1.h.size(); ++i) s += (i ? "," : "") + std::string(std::isnan(o1.h[i]) ? "true" : "false");
-  s += std::string("],\"det\":") + (det ? "true" : "false");
-  std::string m = o1.err.substr(0, 90);
+static std::string flags(const std::vector<double> &v, bool unwritten) {
+  std::string s = "[";
+  for (size_t i = 0; i < v.size(); ++i) {
+    bool b = unwritten ? memcmp(&v[i], &SENTINEL, sizeof(double)) == 0 : std::isnan(v[i]);
+    s += (i ? "," : "") + std::string(b ? "true" : "false");
+  }
+  return s + "]";
+}
+
+static void emit(FILE *outf, const Fn &f, const Call &c, const Out &o, const char *fill, bool det) {
+  const char *val = (f.type & FUNCADD_STRING_VALUED) ? (o.sv ? "str" : "nullstr")
+                    : std::isnan(o.v) ? "nan" : std::isinf(o.v) ? "inf" : "fin";
+  const char *err = !o.haserr ? "none" : o.err.size() && o.err[0] == '\'' ? "deriv"
+                    : o.err.size() && o.err[0] == '"' ? "hes" : "eval";
+  bool uw = std::string(fill) == "val";
+  std::string s = "{\"e\":\"Ret\",\"id\":" + std::to_string(c.id) + ",\"fill\":\"" + fill + "\",\"val\":\"" + val +
+                  "\",\"err\":\"" + err + "\",\"dn\":" + flags(o.d, false) + ",\"hn\":" + flags(o.h, false);
+  s += ",\"du\":" + (uw ? flags(o.d, true) : flags(std::vector<double>(o.d.size(), 0.0), false));
+  s += ",\"hu\":" + (uw ? flags(o.h, true) : flags(std::vector<double>(o.h.size(), 0.0), false));
+  s += std::string(",\"det\":") + (det ? "true" : "false");
+  std::string m = o.err.substr(0, 90);
   for (auto &ch : m) if (ch == '"' || ch == '\\' || (unsigned char)ch < 32 || (unsigned char)ch > 126) ch = ' ';
   s += ",\"msg\":\"" + m + "\"}\n";
   fwrite(s.data(), 1, s.size(), outf);
+}
+
+static void record(FILE *outf, const Fn &f, const Call &c) {
+  Out o0 = call_once(f, c, true), o1 = call_once(f, c, false), o2 = call_once(f, c, false);
+  bool det = memcmp(&o1.v, &o2.v, sizeof(double)) == 0 && same(o1.d, o2.d) && same(o1.h, o2.h) &&
+             o1.haserr == o2.haserr && o1.err == o2.err;
+  emit(outf, f, c, o0, "nan", det);
+  emit(outf, f, c, o1, "val", det);
   fflush(outf);
   for (void *p : tempmem) free(p);
   tempmem.clear();
